@@ -115,11 +115,12 @@ func (b *writeBuffer) advancePastLeadingZeroes() (n uint64) {
 	i := b.p
 	for ; (i < len(b.prev)) && (b.prev[i] == '\x00'); i++ {
 	}
-	if i == b.p {
-		return 0
-	}
 	n = uint64(i - b.p)
 	b.p = i
+	if i < len(b.prev) {
+		// A non-zero byte remains in b.prev, ahead of everything in b.curr.
+		return n
+	}
 
 	// Consume zeroes from b.curr.
 	i = 0
